@@ -20,7 +20,8 @@ PROP = {'engine': 'rc',
                  'point to the object itself: reference cycles (which reference counting cannot free) are excluded',
                  'counters below 2^32 (maxPool + objects-per-slab < 2^32), no allocation failure',
                  'AtomicCounter operations are single indivisible steps: a split inside AtomicIncrement/AtomicDecrement (e.g. `--_count; return GetCount()==0;`) '
-                 'is invisible at the hook granularity (the hook sits before the operation)'],
+                 'is invisible at the hook granularity (the hook sits before the operation): for such races the check relies on the `stress` lines, which are '
+                 'testing by provocation with real threads and prove nothing'],
  'rule': 'one op line = pool parameters (objects per slab 1-4 chosen through the slab-size template parameter, maxPoolSize) + 1-4 thread programs over '
          'new-heap/obtain/copy/SetRef/Reset/swap/hand-off/payload-write/const-cast/link/unlink/pop (objects hold a `next` Ref: linked lists, cascading release)/'
          'non-counting alias/promote/demote/Neutralize + a schedule, executed on real threads against the real '
@@ -30,7 +31,11 @@ PROP = {'engine': 'rc',
          'enumerated behind a set-up prefix (shared object, linked list shared by its head, non-counting aliases, pool contention) up to 2 (quick) / 3 (thorough) preemptions per program (capped, fewest preemptions first) plus random event lists plus '
          'single-threaded histories; direct oracle: destroyed/recycled exactly once and only with count 0 and no visible reference, no Ref to a released object, '
          'count = visible references (counting slots + `next` members of live objects) when no operation is in progress, nothing leaks, an object handed out is in the default state and not handed out already, '
-         'free lists acyclic and disjoint from handed-out nodes, _curPoolSize = free nodes, PerformSanityCheck() after every step; distinct = distinct case bodies'}
+         'free lists acyclic and disjoint from handed-out nodes, _curPoolSize = free nodes, PerformSanityCheck() after every step; distinct = distinct case bodies.  '
+         'TESTING, NOT PROOF: each shard additionally runs 7 `stress` lines (lastrefs / churn / pop with 2-4 REAL UNSCHEDULED threads released from a spin '
+         'barrier; 200000/60000/30000/20000/10000/50000/20000 rounds, x10 in the thorough tier) whose expected result is a constant that the Lean engine merely '
+         'echoes; they provoke races below the hook granularity (oracle: exactly one release per shared object, nothing handed out twice, popped successor '
+         'alive, pool all free, PerformSanityCheck, ASan)'}
 
 TEXT = {'design_ref': 'DESIGN.md section 4, C10 (and 3.5 for the hooks and the cooperative scheduler)',
  'technique': 'Lean 4 theorems over a small-step interleaving model of Ref/RefCountable and ObjectPool (every schedule, any number of threads and objects, all pool '
@@ -51,5 +56,6 @@ TEXT = {'design_ref': 'DESIGN.md section 4, C10 (and 3.5 for the hooks and the c
  'note': 'Sequential consistency of the hooked steps, counters < 2^32, no allocation failure; only reference-counting Refs; a Ref object is private to one thread '
          '(hand-off through mailboxes); next members are changed only through a private reference; non-counting Refs are never dereferenced.  Finding '
          'C10-assign-from-owned-ref (fixed in /repo 3dba531) has its regression in corpus/C10/rc-regress-assign-from-owned-ref.ops.  Not visible at the hook '
-         'granularity: a split inside AtomicDecrement itself.  Not proved: absence of leaks as a theorem (the harness checks it: alive but unreferenced / not everything released at the '
+         'granularity: a split inside AtomicDecrement itself; the `stress` op (real unscheduled threads, constant expected result, echoed by the model) is '
+         'there to PROVOKE such races - it is testing, not proof, and its absence of failures supports no theorem.  Not proved: absence of leaks as a theorem (the harness checks it: alive but unreferenced / not everything released at the '
          'end is an oracle failure).  Trusted: Lean kernel, statement file, scheduler + hooks, sampling correspondence.'}
